@@ -8,10 +8,11 @@ source of the function by an AST pass and re-interpreted in IEEE-754 binary64 (z
     slice.exprs["rc"]      -> z3 FP term over the inputs
     slice.concrete(env)    -> the same assignments executed by real Python/numpy on concrete inputs (used by replays)
 
-Supported: names, int/float constants, + - * / and unary minus, conditional expressions, comparisons / truthiness of a
-number in a condition, float()/np.float64(), np.spacing(1), np.divide/true_divide/multiply/add/subtract, np.maximum/np.minimum.
-A name in the slice must be assigned exactly once in the function (Name target; subscript stores are not assignments to the
-name): anything else raises EngineGap and the caller reports the obligation as inconclusive.
+Supported: names, int/float constants, + - * / ** 2 and unary minus, conditional expressions, comparisons / truthiness of a
+number in a condition, float()/np.float64(), np.spacing(x) (via the IEEE bit pattern), np.sqrt/abs, np.reshape/np.full (identity
+in the element-wise model), np.divide/true_divide/multiply/add/subtract, np.maximum/np.minimum.  The body is interpreted
+sequentially (see FloatSlice); whatever is not translatable poisons the names it binds, and a poisoned target raises EngineGap,
+which the caller reports as inconclusive.
 Integer-valued inputs are modelled as binary64 values constrained to be integral and below 2**53, where Python/numpy integer
 +, -, * are exact in binary64 as well; true division of integers converts to binary64 first, as numpy does."""
 from __future__ import annotations
@@ -31,29 +32,45 @@ def is_integral(x, lo, hi):
     return z3.And(z3.fpRoundToIntegral(RM, x) == x, z3.fpGEQ(x, fpval(lo)), z3.fpLEQ(x, fpval(hi)))
 
 
+class _Poison:
+    def __init__(self, why):
+        self.why = why
+
+
+def fp_spacing(x):
+    """numpy.spacing(x) for finite x: distance from |x| to the next representable binary64 away from zero (sign of x)."""
+    ax = z3.fpAbs(x)
+    nxt = z3.fpBVToFP(z3.fpToIEEEBV(ax) + z3.BitVecVal(1, 64), F64)
+    d = z3.fpSub(RM, nxt, ax)  # exact
+    return z3.If(z3.fpIsNegative(x), z3.fpNeg(d), d)
+
+
 class FloatSlice:
-    def __init__(self, fn, inputs, targets):
+    """Sequential interpretation of the function body (current source): plain assignments whose right-hand side is translatable update a
+    binary64 environment; `if` statements whose test is decided by ``consts`` follow that branch, other `if`s poison what either branch
+    assigns; loop bodies are interpreted once after poisoning everything they assign (so a loop-carried value cannot be mistaken for a
+    fresh one); names given as ``inputs`` stay free symbols.  ``exprs[target]`` is the value at the end; a poisoned or untranslatable
+    target raises EngineGap."""
+
+    def __init__(self, fn, inputs, targets, consts=None):
         self.fn = fn
         self.inputs = dict(inputs)
+        self.consts = dict(consts or {})
         src = textwrap.dedent(inspect.getsource(fn))
         self.tree = ast.parse(src).body[0]
-        self.assigns = {}
-        for node in ast.walk(self.tree):
-            if isinstance(node, ast.Assign):
-                for t in node.targets:
-                    for nm in self._names(t):
-                        self.assigns.setdefault(nm, []).append(node)
-            elif isinstance(node, (ast.AugAssign, ast.AnnAssign)) and isinstance(node.target, ast.Name):
-                self.assigns.setdefault(node.target.id, []).append(node)
-            elif isinstance(node, (ast.For, ast.comprehension)):
-                for nm in self._names(node.target):
-                    self.assigns.setdefault(nm, []).append(node)
-        self.order = []  # (name, ast expr) in dependency order
+        self.env = {}
+        self.order = []  # (name, ast expr) in execution order along the chosen path
+        self._block(self.tree.body)
         self.exprs = {}
-        self._memo = {}
         for t in targets:
-            self.exprs[t] = self._name(t)
+            v = self.env.get(t)
+            if v is None:
+                raise EngineGap(f"float slice: '{t}' is never assigned in {fn.__qualname__}")
+            if isinstance(v, _Poison):
+                raise EngineGap(f"float slice: '{t}' in {fn.__qualname__}: {v.why}")
+            self.exprs[t] = v
 
+    # ------------------------------------------------------------------ statements
     @staticmethod
     def _names(t):
         if isinstance(t, ast.Name):
@@ -65,20 +82,99 @@ class FloatSlice:
             return out
         return []  # subscript / attribute stores do not rebind the name
 
+    def _assigned(self, stmts):
+        out = set()
+        for st in stmts:
+            for node in ast.walk(st):
+                if isinstance(node, ast.Assign):
+                    for t in node.targets:
+                        out.update(self._names(t))
+                elif isinstance(node, (ast.AugAssign, ast.AnnAssign)):
+                    out.update(self._names(node.target))
+                elif isinstance(node, (ast.For, ast.comprehension)):
+                    out.update(self._names(node.target))
+                elif isinstance(node, ast.NamedExpr):
+                    out.update(self._names(node.target))
+        return out
+
+    def _poison(self, names, why):
+        for nm in names:
+            if nm not in self.inputs:
+                self.env[nm] = _Poison(why)
+
+    def _const_test(self, node):
+        """-> True / False when decided by consts, else None"""
+        if isinstance(node, ast.Name) and node.id in self.consts:
+            return bool(self.consts[node.id])
+        if isinstance(node, ast.UnaryOp) and isinstance(node.op, ast.Not):
+            v = self._const_test(node.operand)
+            return None if v is None else (not v)
+        if isinstance(node, ast.Compare) and len(node.ops) == 1 and isinstance(node.left, ast.Name) and node.left.id in self.consts and isinstance(node.comparators[0], ast.Constant):
+            a, b = self.consts[node.left.id], node.comparators[0].value
+            op = node.ops[0]
+            if isinstance(op, (ast.Is, ast.Eq)):
+                return a is b if isinstance(op, ast.Is) else a == b
+            if isinstance(op, (ast.IsNot, ast.NotEq)):
+                return a is not b if isinstance(op, ast.IsNot) else a != b
+        return None
+
+    def _block(self, stmts):
+        for st in stmts:
+            if isinstance(st, ast.Assign) and len(st.targets) == 1 and isinstance(st.targets[0], ast.Name):
+                nm = st.targets[0].id
+                if nm in self.inputs:
+                    continue
+                try:
+                    self.env[nm] = self._expr(st.value)
+                    self.order.append((nm, st.value))
+                except EngineGap as e:
+                    self.env[nm] = _Poison(str(e))
+            elif isinstance(st, ast.AugAssign) and isinstance(st.target, ast.Name):
+                nm = st.target.id
+                if nm in self.inputs:
+                    continue
+                try:
+                    e = ast.BinOp(left=ast.Name(id=nm, ctx=ast.Load()), op=st.op, right=st.value)
+                    self.env[nm] = self._expr(e)
+                    self.order.append((nm, ast.fix_missing_locations(ast.copy_location(e, st))))
+                except EngineGap as e2:
+                    self.env[nm] = _Poison(str(e2))
+            elif isinstance(st, (ast.Assign, ast.AnnAssign)):
+                tg = st.targets if isinstance(st, ast.Assign) else [st.target]
+                for t in tg:
+                    self._poison(self._names(t), "assigned by an unsupported statement form")
+            elif isinstance(st, ast.If):
+                c = self._const_test(st.test)
+                if c is True:
+                    self._block(st.body)
+                elif c is False:
+                    self._block(st.orelse)
+                else:
+                    self._poison(self._assigned(st.body) | self._assigned(st.orelse), f"assigned under an undecided condition at line {st.lineno}")
+            elif isinstance(st, (ast.For, ast.While)):
+                self._poison(self._assigned([st]), f"assigned inside the loop at line {st.lineno} before its definition there")
+                self._block(st.body)
+            elif isinstance(st, ast.With):
+                self._block(st.body)
+            elif isinstance(st, ast.Try):
+                self._block(st.body)
+            # every other statement (expression statements, asserts, returns, raises) does not bind names
+
+    # ------------------------------------------------------------------ expressions
     def _name(self, nm):
         if nm in self.inputs:
             return self.inputs[nm]
-        if nm in self._memo:
-            return self._memo[nm]
-        a = self.assigns.get(nm, [])
-        if len(a) != 1 or not isinstance(a[0], ast.Assign) or len(a[0].targets) != 1 or not isinstance(a[0].targets[0], ast.Name):
-            raise EngineGap(f"float slice: '{nm}' is not a single plain assignment in {self.fn.__qualname__} ({len(a)} binding(s))")
-        e = self._expr(a[0].value)
-        self._memo[nm] = e
-        self.order.append((nm, a[0].value))
-        return e
+        v = self.env.get(nm)
+        if v is None:
+            raise EngineGap(f"float slice: name '{nm}' has no translatable definition before its use in {self.fn.__qualname__}")
+        if isinstance(v, _Poison):
+            raise EngineGap(f"float slice: '{nm}': {v.why}")
+        return v
 
     def _cond(self, node):
+        c = self._const_test(node)
+        if c is not None:
+            return z3.BoolVal(c)
         if isinstance(node, ast.Compare) and len(node.ops) == 1:
             a, b = self._expr(node.left), self._expr(node.comparators[0])
             op = node.ops[0]
@@ -114,6 +210,11 @@ class FloatSlice:
         if isinstance(node, ast.UnaryOp) and isinstance(node.op, ast.UAdd):
             return self._expr(node.operand)
         if isinstance(node, ast.BinOp):
+            if isinstance(node.op, ast.Pow):
+                if isinstance(node.right, ast.Constant) and node.right.value in (1, 2):  # numpy evaluates x**2 as x*x
+                    a = self._expr(node.left)
+                    return a if node.right.value == 1 else z3.fpMul(RM, a, a)
+                raise EngineGap("float slice: power other than **1 / **2 not supported")
             a, b = self._expr(node.left), self._expr(node.right)
             tab = {ast.Add: z3.fpAdd, ast.Sub: z3.fpSub, ast.Mult: z3.fpMul, ast.Div: z3.fpDiv}
             if type(node.op) in tab:
@@ -124,10 +225,20 @@ class FloatSlice:
         if isinstance(node, ast.Call) and not node.keywords:
             nm = self._call_name(node.func)
             args = node.args
-            if nm in ("float", "np.float64") and len(args) == 1:
+            if nm in ("float", "np.float64", "np.asarray", "np.array") and len(args) == 1:
                 return self._expr(args[0])
-            if nm == "np.spacing" and len(args) == 1 and isinstance(args[0], ast.Constant) and args[0].value in (1, 1.0):
-                return fpval(2.0 ** -52)
+            if nm == "np.reshape" and len(args) == 2:  # element-wise model: shape changes do not touch values
+                return self._expr(args[0])
+            if nm == "np.full" and len(args) == 2:
+                return self._expr(args[1])
+            if nm == "np.spacing" and len(args) == 1:
+                if isinstance(args[0], ast.Constant) and args[0].value in (1, 1.0):
+                    return fpval(2.0 ** -52)
+                return fp_spacing(self._expr(args[0]))
+            if nm in ("np.sqrt", "math.sqrt") and len(args) == 1:
+                return z3.fpSqrt(RM, self._expr(args[0]))
+            if nm in ("np.abs", "np.absolute", "abs") and len(args) == 1:
+                return z3.fpAbs(self._expr(args[0]))
             two = {"np.divide": z3.fpDiv, "np.true_divide": z3.fpDiv, "np.multiply": z3.fpMul, "np.add": z3.fpAdd, "np.subtract": z3.fpSub}
             if nm in two and len(args) == 2:
                 return two[nm](RM, self._expr(args[0]), self._expr(args[1]))
@@ -141,12 +252,17 @@ class FloatSlice:
 
     # ------------------------------------------------------------------ concrete twin (replay)
     def concrete(self, env):
-        """execute the sliced assignments (current source text) with real Python/numpy on concrete inputs -> dict of all slice names"""
+        """execute the sliced assignments (current source text, chosen branches) with real Python/numpy on concrete inputs -> dict of names.
+        Assignments that fail on the caller's environment (they were not needed by it) are skipped."""
         import numpy as np
-        g = {"np": np, "numpy": np, "float": float, "max": max, "min": min}
+        g = {"np": np, "numpy": np, "float": float, "max": max, "min": min, "abs": abs}
+        g.update(self.consts)
         g.update(env)
         for nm, e in self.order:
-            g[nm] = eval(compile(ast.Expression(body=e), f"<slice {self.fn.__qualname__}:{nm}>", "eval"), g)
+            try:
+                g[nm] = eval(compile(ast.Expression(body=e), f"<slice {self.fn.__qualname__}:{nm}>", "eval"), g)
+            except Exception:  # noqa
+                g.pop(nm, None)
         return g
 
     def source(self):
